@@ -19,6 +19,7 @@ package accumulation
 //verif:init go/scanner
 //verif:init go/parser
 //verif:init go/printer
+//verif:init golang.org/x/tools/internal/typeparams
 //verif:init golang.org/x/tools/go/ssa
 //verif:init unicode
 //verif:init regexp/syntax
@@ -33,6 +34,8 @@ package accumulation
 //verif:init go.uber.org/nilaway/assertion/function/producer
 //verif:init go.uber.org/nilaway/assertion/function/assertiontree
 //verif:init go.uber.org/nilaway/assertion/global
+//verif:zero golang.org/x/tools/go/analysis/passes/buildssa.Analyzer
+//verif:init go.uber.org/nilaway/assertion/function/functioncontracts
 //verif:init go.uber.org/nilaway/assertion/affiliation
 //verif:init go.uber.org/nilaway/inference
 //verif:init go.uber.org/nilaway/diagnostic
